@@ -400,6 +400,41 @@ VARIANTS = [
                 "new": "_NON_FINITE = frozenset({\"inf\", \"-inf\", \"+inf\", \"nan\"})\n\n\nclass HumanMessageSerializer:\n"},
                {"file": FMT, "old": "                    elif re.match(r\"\\A[-+]?(inf|nan)\\Z\", var_val):\n",
                 "new": "                    elif var_val in _NON_FINITE:\n"}]},
+    # ------------------------------------------------------------------ audit round (anchored on the FIXED text)
+    {"name": "R11 empty block lists no longer announced (fix reverted, formatter side)", "file": FMT, "expect": "C11.R11",
+     "old": "            if not block_list:\n                # A variable block with a count of 0 is still there on the wire, and whether\n"
+            "                # it was seen matters when the message is serialized again.\n"
+            "                string += f\"[{block_name}] * 0{block_suffix}\\n\"\n",
+     "new": ""},
+    {"name": "R11 parser treats the zero marker as an ordinary block (fix reverted, parser side)", "file": FMT, "expect": "C11.R11",
+     "old": "                if re.match(r\"^\\[\\w+]\\s*\\*\\s*0\\b\", line):\n"
+            "                    # `[Name] * 0`, the block is present but has no entries\n"
+            "                    msg.create_block_list(block_name)\n                    cur_block = None\n"
+            "                else:\n                    cur_block = Block(block_name)\n                    msg.add_block(cur_block)\n",
+     "new": "                cur_block = Block(block_name)\n                msg.add_block(cur_block)\n"},
+    {"name": "P11 zero marker recognised by a guard clause", "file": FMT, "expect": "silent",
+     "old": "                if re.match(r\"^\\[\\w+]\\s*\\*\\s*0\\b\", line):\n"
+            "                    # `[Name] * 0`, the block is present but has no entries\n"
+            "                    msg.create_block_list(block_name)\n                    cur_block = None\n"
+            "                else:\n                    cur_block = Block(block_name)\n                    msg.add_block(cur_block)\n",
+     "new": "                if re.match(r\"^\\[\\w+]\\s*\\*\\s*0\\b\", line):\n"
+            "                    msg.create_block_list(block_name)\n                    cur_block = None\n                    continue\n"
+            "                cur_block = Block(block_name)\n                msg.add_block(cur_block)\n"},
+    {"name": "R16 packed values back to plain literal_eval (fix reverted)", "file": FMT, "expect": "C11.R16",
+     "old": "                        var_val = _literal_eval(var_val)\n", "new": "                        var_val = ast.literal_eval(var_val)\n"},
+    {"name": "R16 name rewriting only knows inf", "file": FMT, "expect": "C11.R16",
+     "old": "        if node.id in (\"inf\", \"nan\"):\n", "new": "        if node.id in (\"inf\",):\n"},
+    {"name": "P16 name rewriting with a dict of spellings", "file": FMT, "expect": "silent",
+     "old": "        if node.id in (\"inf\", \"nan\"):\n            return ast.copy_location(ast.Constant(float(node.id)), node)\n",
+     "new": "        known = {\"inf\": math.inf, \"nan\": math.nan}\n        if node.id in known:\n"
+            "            return ast.copy_location(ast.Constant(known[node.id]), node)\n"},
+    {"name": "R17 scalar floats printed with plain repr again (fix reverted)", "file": FMT, "expect": "C11.R17",
+     "old": "        elif isinstance(var_val, float):\n            var_data = _float_repr(var_val)\n", "new": ""},
+    {"name": "R17 coordinate components printed with repr", "file": FMT, "expect": "C11.R17",
+     "old": "            var_data = \"<\" + \", \".join(_float_repr(x) for x in var_val) + \">\"\n",
+     "new": "            var_data = \"<\" + \", \".join(repr(x) for x in var_val) + \">\"\n"},
+    {"name": "P17 sign-aware float renderer renamed", "expect": "silent",
+     "edits": [{"file": FMT, "old": "_float_repr", "new": "_repr_keeping_nan_sign", "all": True}]},
     # ------------------------------------------------------------------ documented limits
     {"name": "X wrap width changed (line-wrapping details are value level)", "file": FMT, "expect": "miss",
      "old": "HippoPrettyPrinter(width=100)", "new": "HippoPrettyPrinter(width=40)"},
